@@ -167,6 +167,26 @@ def oracle_bytes(case, obs=None):
 
 # =================================================================================================
 # the command line, in-process
+# the documented meaning of the sqlformat flags (docs/source/ui.rst of the pinned revision): flag -> formatter option.
+# The expectation must NOT be read off argparse's `dest`: a flag that lands in another dest silently formats without the option.
+FLAG_TO_OPTION = {
+    '-k': 'keyword_case', '--keywords': 'keyword_case', '-i': 'identifier_case', '--identifiers': 'identifier_case',
+    '-l': 'output_format', '--language': 'output_format', '--strip-comments': 'strip_comments',
+    '-r': 'reindent', '--reindent': 'reindent', '--indent_width': 'indent_width',
+    '--indent_after_first': 'indent_after_first', '--indent_columns': 'indent_columns',
+    '-a': 'reindent_aligned', '--reindent_aligned': 'reindent_aligned',
+    '-s': 'use_space_around_operators', '--use_space_around_operators': 'use_space_around_operators',
+    '--wrap_after': 'wrap_after', '--comma_first': 'comma_first', '--compact': 'compact',
+}
+
+
+def doc_option(a):
+    for o in a.option_strings:
+        if o in FLAG_TO_OPTION:
+            return FLAG_TO_OPTION[o]
+    return a.dest
+
+
 def cli_actions():
     """(action, kind) for every option of cli.create_parser(); unknown kinds are reported."""
     import argparse
@@ -193,17 +213,20 @@ def cli_actions():
 
 
 def flag_values(a, kind):
-    """[(argv pieces, value the user means)]"""
-    opt = a.option_strings[-1]
-    if kind == 'flag':
-        return [([opt], True)]
-    if kind == 'choice':
-        return [([opt, c], c) for c in a.choices]
-    if kind == 'int':
-        return [([opt, str(v)], v) for v in (0, 1, 2, 4, 30)]
-    if kind == 'bool':
-        return [([opt, v], BOOL_MEANT[v]) for v in ('True', 'False', '1', '')]
-    raise ValueError(kind)
+    """[(argv pieces, value the user means)] -- for every spelling of the flag"""
+    out = []
+    for opt in a.option_strings:
+        if kind == 'flag':
+            out += [([opt], True)]
+        elif kind == 'choice':
+            out += [([opt, c], c) for c in a.choices]
+        elif kind == 'int':
+            out += [([opt, str(v)], v) for v in ((0, 1, 2, 4, 30) if opt == a.option_strings[-1] else (2,))]
+        elif kind == 'bool':
+            out += [([opt, v], BOOL_MEANT[v]) for v in ('True', 'False', '1', '')]
+        else:
+            raise ValueError(kind)
+    return out
 
 
 def run_cli(argv, stdin_bytes=None, stdin_encoding='utf-8'):
@@ -324,7 +347,7 @@ def oracle_cli(case, workdir=None):
     while i < len(fl):
         a, k = acts.get(fl[i], (None, None))
         if k == 'bool' and i + 1 < len(fl):
-            flagged[a.dest] = bool(fl[i + 1])      # what type=bool makes of the string
+            flagged[doc_option(a)] = bool(fl[i + 1])      # what type=bool makes of the string
             i += 2
         else:
             i += 1
@@ -418,7 +441,7 @@ def shrink(f):
         while changed:
             changed = False
             for a, kind in acts:
-                if a.dest in best['meant']:
+                if doc_option(a) in best['meant']:
                     c = _clean(best)
                     fl = list(c['flags'])
                     for o in a.option_strings:
@@ -426,7 +449,7 @@ def shrink(f):
                             i = fl.index(o)
                             del fl[i:i + (1 if kind == 'flag' else 2)]
                     c['flags'] = fl
-                    c['meant'] = {k: v for k, v in c['meant'].items() if k != a.dest}
+                    c['meant'] = {k: v for k, v in c['meant'].items() if k != doc_option(a)}
                     g = oracle(c)
                     if g and g.get('class') == cls:
                         best, changed = g, True
@@ -491,13 +514,13 @@ def gen_cli_cases(ctx, n_random):
     for a, kind in acts:
         for argv, meant in flag_values(a, kind):
             for ctx_flags, ctx_meant in (([], {}), (['-r'], {'reindent': True})):    # alone, and together with -r
-                if a.dest == 'reindent' and ctx_flags:
+                if doc_option(a) == 'reindent' and ctx_flags:
                     continue
                 for enc in CLI_ENCODINGS:
                     for inp in ('file', 'stdin'):
                         for outc in ('stdout', 'outfile'):
                             cases.append({'kind': 'cli', 'text': [ord(c) for c in samples[enc]], 'enc': enc,
-                                          'flags': ctx_flags + argv, 'meant': dict(ctx_meant, **{a.dest: meant}),
+                                          'flags': ctx_flags + argv, 'meant': dict(ctx_meant, **{doc_option(a): meant}),
                                           'inp': inp, 'out': outc})
     # no flag at all
     for enc in CLI_ENCODINGS:
@@ -526,7 +549,7 @@ def gen_cli_cases(ctx, n_random):
         for a, kind in r.sample(acts, r.randrange(0, 6)):
             argv, m = r.choice(flag_values(a, kind))
             flags += argv
-            meant[a.dest] = m
+            meant[doc_option(a)] = m
         cases.append({'kind': 'cli', 'text': [ord(c) for c in s], 'enc': enc, 'flags': flags, 'meant': meant,
                       'inp': r.choice(['file', 'stdin']), 'out': r.choice(['stdout', 'outfile'])})
     return cases, n_single, unknown
